@@ -1,5 +1,7 @@
 import SakuraVerif.Model.Sutoton
 import SakuraVerif.Model.Lexer
+import SakuraVerif.Lemmas.LexTerm
+import SakuraVerif.Lemmas.LexCompose
 /-! # C18 (T0) — spacing, bar lines, separators and comments never change the music
 
 Model of the main loop of `lexer::lex` restricted to what it does *between* commands: the
@@ -215,6 +217,48 @@ theorem C18_lex_line_comment (tb : Int) (f : Nat) (body r : List Nat) (ln : Int)
     · rename_i heq; simp at heq
     · rename_i heq; simp at heq
     · rename_i h1 h2 h3 h4; exact absurd rfl (h2 _)
+
+/-! ### the same for `lex` itself, whose step budget is the length of the text (no fuel in the statements: `C07_lexer_terminates`
+    makes the budget irrelevant) -/
+
+/-- a separator in front of any text: `lex` gives exactly what it gives without it -/
+theorem C18_lex_leading_separator (tb : Int) (c : Nat) (cs : List Nat) (ln : Int) (h : isSep (zen2han c) = true) :
+    Lx.lex tb (c :: cs) ln = Lx.lex tb cs ln := by
+  unfold Lx.lex
+  simp only [List.length_cons]
+  rw [C18_lex_separator tb (cs.length + 1) c cs ln false h]
+
+/-- any run of separators in front of a text -/
+theorem C18_lex_leading_separators (tb : Int) (seps cs : List Nat) (ln : Int) (h : ∀ c ∈ seps, isSep (zen2han c) = true) :
+    Lx.lex tb (seps ++ cs) ln = Lx.lex tb cs ln := by
+  induction seps with
+  | nil => rfl
+  | cons c r ih =>
+    rw [List.cons_append, C18_lex_leading_separator tb c (r ++ cs) ln (h c List.mem_cons_self)]
+    exact ih (fun x hx => h x (List.mem_cons_of_mem _ hx))
+
+/-- a `// …` comment line in front of a text: the loop (with the budget `lex` gives it) continues on the next line as if the text
+    began there -/
+theorem C18_lex_leading_line_comment (tb : Int) (body r : List Nat) (ln : Int) (harm : Bool)
+    (h : ∀ c ∈ body, c ≠ 10) (hs : body.head? ≠ some 47) :
+    Lx.lexLoop tb ((47 :: 47 :: (body ++ 10 :: r)).length + 1) (47 :: 47 :: (body ++ 10 :: r)) ln harm
+      = Lx.lexLoop tb (r.length + 1) r (ln + 1) harm := by
+  rw [C18_lex_line_comment tb _ body r ln harm h hs]
+  have : (47 :: 47 :: (body ++ 10 :: r)).length = r.length + 1 + (body.length + 2) := by
+    simp only [List.length_cons, List.length_append]; omega
+  rw [this]
+  exact Lx.lexLoop_fuel_stable tb r (ln + 1) harm (body.length + 2)
+
+/-- **a command's meaning does not depend on what follows its `;`**: for every program of the block language (notes, rests, setters,
+    loops, chords, `Sub{…}`, tuplets, nested to any depth) and every text `X` whatsoever, `lex` reads `program ; X` as the compiled
+    tokens of the program followed by exactly what it makes of `X` on its own — tokens, error entries, and the answer "outside the
+    modelled subset" alike -/
+theorem C18_semicolon_isolates (cs : List Core.Cmd) (hw : Lp.pwfL2 cs) (X : List Nat) :
+    Lx.lex 96 (Lp.printKL2 cs (59 :: X)) 0
+      = (Lx.lexLoop 96 (X.length + 1) X 0 false).map (fun o => ⟨Ex2.compileL cs ++ o.toks, o.errs⟩) := by
+  unfold Lx.lex
+  rw [Lp.lex_semicolon_isolates cs hw X]
+  cases Lx.lexLoop 96 (X.length + 1) X 0 false <;> simp [Lp.preL, Ex2.compileL, Ex2.lineTok]
 
 -- non-vacuity on the concrete lexer: separators, a line break and a line comment between three notes
 example : ((Lx.lex 96 [99, 32, 124, 47, 47, 120, 121, 10, 100, 59, 10, 101] 0).map (fun o => o.toks.map Lx.Tok.ty)) =
